@@ -44,9 +44,11 @@ func (s *Server) GetData(req *sdcpb.GetDataRequest, stream sdcpb.DataServer_GetD
 		return status.Error(codes.InvalidArgument, "missing path attribute")
 	}
 
+	// the lock guards the datastore map only: holding it while the answer is streamed would
+	// block every request that needs the write lock for as long as this client takes to read
 	s.md.RLock()
-	defer s.md.RUnlock()
 	ds, ok := s.datastores[name]
+	s.md.RUnlock()
 	if !ok {
 		return status.Errorf(codes.InvalidArgument, "unknown datastore %s", name)
 	}
